@@ -105,6 +105,8 @@ def search(chk, broken):
     n = 4 if (chk.tier == 'quick' and not broken) else 150
     evals = 0
     for it in range(n):
+        if chk.over():
+            break
         h0 = 0.5
         shot, _ = sg.gen_shot(pbc, rng, flat=True, max_look=25, table=getattr(pbc, rng.choice(sg.TABLE_NAMES)))
         if shot.atmo.density_ratio == 0:
@@ -152,6 +154,8 @@ def search(chk, broken):
                     break
     # vacuum: closed-form parabola under the configured (standard) gravity
     for it in range(3 if (chk.tier == 'quick' and not broken) else 60):
+        if chk.over():
+            break
         shot, _ = sg.gen_shot(pbc, rng, flat=True, allow_cant=False, max_look=30, atmo=pbc.Vacuum(U.Foot(rng.uniform(0, 5000))))
         shot.weapon.twist = U.Inch(0)
         calc = pbc.Calculator()
